@@ -75,6 +75,15 @@ func (p *Prog) VerifyFunc(c *Contract) (res *FuncResult) {
 		// requires held(x.mu): the caller holds the mutex
 		collectHeld(rq.E, env, fr.heldIn)
 	}
+	// ghost assignments performed on entry: the function starts with the ghost variable holding the value
+	for _, gi := range c.GhostInits {
+		gv, ok := vc.P.CS.GhostVars[gi.Name]
+		if !ok {
+			res.Errors = append(res.Errors, "ghostinit: "+gi.Name+" is not a ghost variable")
+			continue
+		}
+		vc.S.Assert(eq(vc.root.Get(vc.ghostVarHeap(gv)), vc.term(env.eval(gi.Cl.E))))
+	}
 	fr.run("true", vc.root)
 	// ghost assignments performed at return
 	for ri := range fr.rets {
